@@ -1435,9 +1435,9 @@ func madeSlicesFilledRule(P *Program, R *Report, rule, pkg string, floor int) {
 		fn := m.fn
 		visited := false
 		var partial []string
-		allInstrs(fn, func(i ssa.Instruction) {
+		scan := func(i ssa.Instruction) {
 			ia, ok := i.(*ssa.IndexAddr)
-			if !ok || (desc(ia.X) != m.target && ia.X != m.st.Val) {
+			if !ok || (desc(ia.X) != m.target && ia.X != m.st.Val && desc(ia.X) != desc(m.st.Val)) {
 				return
 			}
 			l := innermostLoopOf(ia.Block())
@@ -1471,7 +1471,25 @@ func madeSlicesFilledRule(P *Program, R *Report, rule, pkg string, floor int) {
 			} else {
 				partial = append(partial, fmt.Sprintf("%s: walk of class %q, made with %q", P.Pos(ia.Pos()), c, m.class))
 			}
-		})
+		}
+		allInstrs(fn, scan)
+		// ... or by an unexported helper that is handed the slice and fills it (seen with its parameters bound to the
+		// call's arguments, so that the slice and the collections it walks read in this function's terms)
+		for _, ci := range callsIn(fn) {
+			g := staticCallee(ci)
+			if g == nil || g.Blocks == nil || !inModuleFn(g) || g.Object() == nil || g.Object().Exported() || g.Parent() != nil || g == fn {
+				continue
+			}
+			handed := false
+			for _, a := range callArgs(ci) {
+				if desc(a) == m.target || a == m.st.Val {
+					handed = true
+				}
+			}
+			if handed {
+				bindCall(ci, g, func() { allInstrs(g, scan) })
+			}
+		}
 		R.decide(rule, FuncKey(fn)+":filled("+m.target+")", "every element of the made slice is visited by a full walk (from 0 by 1, over a collection of the made length)", visited, strings.Join(partial, "; "), P.Pos(m.st.Pos()))
 	}
 	R.decide(rule, pkg+":made-slices", fmt.Sprintf("made slices filed in struct fields were found (>= %d)", floor), len(mades) >= floor, fmt.Sprintf("%d", len(mades)), "")
